@@ -45,6 +45,9 @@ ShapeCases == { Lib(u, << Cell("s", <<>>, es, <<>>) >>) : u \in {"Micro", "Nano"
                            << E(1, "Drawing", "polygon", << <<0, 0>>, <<10, 0>>, <<10, 10>>, <<0, 0>> >>, 0, "closed"),
                               E(2, "Drawing", "path", << <<0, 0>>, <<9, 0>>, <<9, 9>>, <<0, 9>>, <<0, 0>> >>, 2, "ring"),
                               E(2, "Pin", "polygon", << <<0, 0>>, <<7, 0>>, <<0, 5>> >>, 0, ""), E(1, "Pin", "path", << <<3, 3>>, <<3, 8>> >>, 0, "") >>,
+                           \* a point repeated in place (a zero-length edge): still a point of the list
+                           << E(1, "Drawing", "polygon", << <<0, 0>>, <<10, 0>>, <<10, 10>>, <<10, 10>>, <<0, 10>> >>, 0, "dup"),
+                              E(2, "Drawing", "path", << <<0, 0>>, <<100, 0>>, <<100, 0>>, <<100, 50>> >>, 10, "clk") >>,
                            << E(1, "Drawing", "rect", R1, 0, "a"), E(2, "Drawing", "rect", R1, 0, "b"), E(1, "Drawing", "rect", R2, 0, "c"),
                               E(1, "Pin", "path", Pa, 1, ""), E(2, "Drawing", "polygon", Pg, 0, "") >> } }
 LS(l, shapes) == [layer |-> l, shapes |-> shapes]
